@@ -19,12 +19,14 @@ for sid in sorted(d for d in os.listdir(sd) if os.path.isdir(os.path.join(sd, d)
     r = res.get(sid, {})
     own = r.get(meta["property"])
     def cell(c):
+        if meta.get("obsolete"):
+            return "obsolete: " + meta["obsolete"][:120]
         if not c:
             return "not run"
         if c.get("detected"):
             return "**caught**: " + (", ".join("`%s`" % k for k in c["concrete_replays"][:2]) or "broken obligation, no-failing-input-found")
         return "missed"
-    others = "; ".join("%s: %s" % (p, "caught" if c.get("detected") else "missed") for p, c in sorted(r.items()) if p != meta["property"] and isinstance(c, dict))
+    others = "; ".join("%s: %s" % (p, "caught" if c.get("detected") else "missed") for p, c in sorted(r.items()) if p != meta["property"] and isinstance(c, dict) and "detected" in c)
     esc = lambda s: str(s).replace("|", "\\|").replace("\n", " ")[:230]
     out.append("| %s | %s | %s | %s | %s | %s |" % (sid, meta["property"], esc(meta.get("summary", "")), esc(meta.get("needs", "")), cell(own), others))
 out.append("")
